@@ -506,6 +506,10 @@ func c17PullAutoStop(c *fw.Ctx, i int, autoStop int, static bool) {
 			break
 		}
 		srv.WaitFor(2*time.Second, func() bool { return x.NumTags() > 3 })
+		if autoStop > 0 {
+			// the consumer watches across at least two of lal's ticks before it leaves
+			time.Sleep(2*c17Tick + c17Slack)
+		}
 		left := time.Now()
 		e.unsub(x)
 		if autoStop < 0 {
